@@ -108,6 +108,10 @@ func VP_C04_entry_float() {
 		{1e19, false, 1, 19}, {1.5e20, false, 15, 19}, {9223372036854775808, false, 9223372036854776, 3},
 		{-1e19, true, 1, 19}, {1e22, false, 1, 22}, {123456.789, false, 123456789, -3}, {5e-324, false, 5, -324},
 		{1.7976931348623157e308, false, 17976931348623157, 292}, {0, false, 0, 0}, {1e-7, false, 1, -7}, {4294967296.5, false, 42949672965, -1},
+		// whole numbers between 2^54 and 2^63: the exact binary value differs from the decimal value they print as
+		{1234567890123456768, false, 12345678901234568, 2}, {144115188075855872, false, 14411518807585587, 1}, {9223372036854774784, false, 9223372036854775, 3},
+		{1152921504606847232, false, 11529215046068472, 2}, {1000000000000000128, false, 10000000000000001, 2}, {-4611686018427387904, true, 4611686018427388, 3},
+		{18014398509481984, false, 18014398509481984, 0}, {float64(float32(0.1)), false, 10000000149011612, -17},
 	}
 	p := pool[vpChoice("f", len(pool))]
 	r := NewRunner()
